@@ -903,3 +903,11 @@ class MeanBattery:
 
 
 BOUNDED = [MeanBattery()]
+
+
+def LATE_UNITS():
+    # "deterministic drift plus rate-weighted grid states": the deterministic drift of an exponential model is
+    # r - d + omega of the model AS IT IS when the chain is built (rates reassigned after construction included): the
+    # martingale lemma of c10 (real drift / process_drift / characteristic-function bodies in analytic mode)
+    from contracts import c10
+    return [c10.Martingale()]
